@@ -201,6 +201,8 @@ def columns_layout(context, box, bottom_space, skip_stack, containing_block,
                             if child.is_in_normal_flow():
                                 next_box_height = child.margin_height()
                                 break
+                        else:
+                            next_box_height = 0
                         remove_placeholders(context, [next_box], [], [])
                     else:
                         next_box_height = 0
